@@ -511,7 +511,15 @@ def run_check(prop_id, tier, seed):
             hdr0 = json.loads(open(path).readline())
             for fl in hdr0.get("flavours", PRIMS[prim]["flavours"]):
                 out = os.path.join(work, "regress-%s-%s-%s" % (prim, fl, os.path.basename(path)))
-                fih(["exec", "--prim", prim, "--flavour", fl, "--ops", path, "--out", out])
+                try:
+                    fih(["exec", "--prim", prim, "--flavour", fl, "--ops", path, "--out", out])
+                except CrashError as ce:
+                    # the code under test took the process down: C01's business, noted by the others
+                    ops = [json.loads(l) for l in open(path).read().splitlines()[1:] if l.strip()]
+                    crashes.append({"prim": prim, "flavour": fl, "cfg": "regress " + os.path.basename(path), "path": 0,
+                                    "signal": -ce.rc if ce.rc < 0 else ce.rc, "ops": ops, "consts": hdr0.get("consts", {})})
+                    log("regress history %s crashed the process on flavour %s (rc %d)" % (os.path.basename(path), fl, ce.rc))
+                    continue
                 add_trace_file(prim, out, "regress %s %s" % (os.path.basename(path), fl))
 
     # ---- phase 4: observer-mode validation of everything recorded from the real code
